@@ -68,7 +68,7 @@ SEQ = {
                            'f7_empty_write_unknown_consumer',
                            'f9_unknown_provider_new_consumer'],
                 quick=(36, 45), thorough=(900, 60)),
-    'C19': dict(models=['MC_names'], weights=W_NAMES,
+    'C19': dict(models=['MC_names', 'MC_NameRules:MC_NameRules'], weights=W_NAMES,
                 scenarios=['names_lifecycle', 'drop_class_in_use', 'sync_histories', 'sync_histories',
                            'sync_histories'],
                 quick=(36, 45), thorough=(600, 60)),
@@ -128,9 +128,12 @@ RULES = {
 
 
 def run_model(name, tier):
+    module = 'MC_API'
+    if ':' in name:                 # "Module:cfg" for models outside MC_API.tla
+        module, name = name.split(':')
     cfg = name + ('_deep' if tier == 'thorough' and
                   os.path.exists(os.path.join(tlc.SPEC, name + '_deep.cfg')) else '') + '.cfg'
-    rc, out, wall = tlc.run('MC_API', cfg, workers=16, timeout=5400,
+    rc, out, wall = tlc.run(module, cfg, workers=16, timeout=5400,
                             jvm=['-Xmx8g'])
     gen, dist = tlc.stats(out)
     if 'Model checking completed. No error has been found' not in out:
@@ -246,6 +249,27 @@ def run_seq(prop, tier, seed, model=True):
         violations.extend(v2)
         known.extend(k2)
         extra_cov['interleavings_of_removals_with_new_uses'] = n2
+    if prop == 'C19':
+        # character level: crafted and mutated names sent to the four creating operations (NameRules.tla)
+        from pv import nameprobe
+        try:
+            nbad, nn, name_hist, nobs = nameprobe.run('C19', tier, seed)
+        except tlc.TLCError as ex:
+            raise Machinery(str(ex))
+        if nn == 0:
+            raise Machinery('no name probe was judged')
+        for b, tags in nbad:
+            sig = {'engine': 'names', 'op': b['kind'], 'status': b['status'], 'monitors': ','.join(tags)}
+            why = '%s for %s of the name %r: answered %d, stored %r' % (
+                ','.join(tags), b['kind'], b['name'][:80], b['status'], [x[:80] for x in b['created']])
+            f = findings.lookup(prop, sig)
+            if f:
+                known.append((f, why))
+            else:
+                violations.append((b, why, sig))
+        extra_cov['name_probes_judged'] = nn
+        extra_cov['name_probe_histogram'] = dict(sorted(name_hist.items()))
+        extra_cov['name_probe_observations_outside_C19'] = nobs
     if prop == 'C10':
         # generations never decrease: also on every commit of racing requests
         n2 = 0
@@ -718,6 +742,10 @@ def run_surface(prop, tier, seed, model=True):
                 why = '%s: %s %s at version %s (%s) answered %s' % (','.join(mons), bad['method'], bad['route'], bad['v'], bad['vkind'], bad['status'])
             elif bad['kind'] == 'feature':
                 why = '%s: feature %s at 1.%d observed %s' % (','.join(mons), bad['fid'], bad['v'], 'present' if bad['present'] else 'absent')
+            elif bad['kind'] == 'scope':
+                why = '%s: GET /usages?%s as %s answered %s with the usages of %s' % (
+                    ','.join(mons), bad['query'], bad['caller'], bad['status'],
+                    {'own': 'its own project', 'other': 'another project', 'mixed': 'several projects', 'none': 'nobody'}[bad['data']])
             else:
                 why = '%s: %s %s as %s (override %s %s) answered %s' % (','.join(mons), bad['method'], bad['route'], bad['caller'], bad['ovrule'] or '-', bad['ovkind'] or '-', bad['status'])
             f = findings.lookup(prop, sig)
@@ -727,10 +755,11 @@ def run_surface(prop, tier, seed, model=True):
                 violations.append((bad, why, sig))
     if prop == 'C14':
         rule = ('every (route, method) of the routing table plus unknown paths and undeclared methods x all 40 microversions, "latest", no header and out-of-range versions; '
-                'every one of the 48 versioned features probed at all 40 microversions; distinct non-trivial = all probes (each is a distinct table cell)')
+                'every one of the 54 versioned features probed at all 40 microversions; distinct non-trivial = all probes (each is a distinct table cell)')
     else:
         rule = ('every (route, method) x 7 caller classes under the default policy, and for every documented rule the overrides "@" (everyone) and "!" (nobody) on the '
-                'operations of that rule plus sampled other operations (thorough: all operations); each probe from a restored snapshot with a table dump afterwards')
+                'operations of that rule plus sampled other operations (thorough: all operations); each probe from a restored snapshot with a table dump afterwards; '
+                'GET /usages naming one to three projects (own / another) in every order x 5 caller classes x user_id / consumer_type variants')
     cov = {'evaluations': n, 'distinct_nontrivial': n, 'rule': rule,
            'samples': [r['sample'][0] for r in results if r['sample']][:3],
            'exhaustive': True,
